@@ -56,19 +56,19 @@ type events struct {
 	order   []string
 }
 
-func (e *events) Print(*label.Label, string)                          {}
-func (e *events) RequirementLoading(*label.Label, string)             {}
-func (e *events) RequirementLoaded(*label.Label, string)              {}
-func (e *events) RequirementLoadFailed(*label.Label, string, error)   {}
-func (e *events) ModuleLoaded(*label.Label)                           {}
-func (e *events) ModuleLoadFailed(*label.Label, error)                {}
-func (e *events) LoadDone(error)                                      {}
-func (e *events) TargetUpToDate(*label.Label)                         {}
+func (e *events) Print(*label.Label, string)                            {}
+func (e *events) RequirementLoading(*label.Label, string)               {}
+func (e *events) RequirementLoaded(*label.Label, string)                {}
+func (e *events) RequirementLoadFailed(*label.Label, string, error)     {}
+func (e *events) ModuleLoaded(*label.Label)                             {}
+func (e *events) ModuleLoadFailed(*label.Label, error)                  {}
+func (e *events) LoadDone(error)                                        {}
+func (e *events) TargetUpToDate(*label.Label)                           {}
 func (e *events) TargetEvaluating(*label.Label, string, diff.ValueDiff) {}
-func (e *events) TargetFailed(*label.Label, error)                    {}
-func (e *events) TargetSucceeded(*label.Label, bool)                  {}
-func (e *events) RunDone(error)                                       {}
-func (e *events) FileChanged(*label.Label)                            {}
+func (e *events) TargetFailed(*label.Label, error)                      {}
+func (e *events) TargetSucceeded(*label.Label, bool)                    {}
+func (e *events) RunDone(error)                                         {}
+func (e *events) FileChanged(*label.Label)                              {}
 func (e *events) ModuleLoading(l *label.Label) {
 	e.mu.Lock()
 	e.loading[l.String()]++
@@ -248,7 +248,7 @@ func exec(c Case) (v ev.Verdict) {
 		if loadErr == nil {
 			return ev.Failf("cycle-not-reported", "the load graph has a cycle but Load succeeded")
 		}
-		if !strings.Contains(loadErr.Error(), "cyclic dependency") {
+		if le := strings.ToLower(loadErr.Error()); !strings.Contains(le, "cyclic") && !strings.Contains(le, "cycle") {
 			return ev.Failf("cycle-not-reported", "the load graph has a cycle; Load failed with %q, which does not name a cyclic dependency", loadErr.Error())
 		}
 		return v
@@ -524,7 +524,7 @@ func execAligned(ac AlignedCase) (v ev.Verdict) {
 			return ev.Failf("module-loaded-twice", "module %s was executed %d times", l, n)
 		}
 	}
-	if cyclic && (loadErr == nil || !strings.Contains(loadErr.Error(), "cyclic dependency")) {
+	if cyclic && (loadErr == nil || !(strings.Contains(strings.ToLower(loadErr.Error()), "cyclic") || strings.Contains(strings.ToLower(loadErr.Error()), "cycle"))) {
 		return ev.Failf("cycle-not-reported", "cyclic load graph, aligned loaders: Load returned %v", loadErr)
 	}
 	if !cyclic && loadErr != nil {
@@ -547,14 +547,14 @@ func TestC06Aligned(t *testing.T) {
 
 // catalogue of small load graphs for the bounded-exhaustive schedule enumeration
 var catalogue = []Case{
-	{Pkgs: [][]int{{0}, {1}}, Helpers: [][]int{{1}, {0}}},                         // two packages, helpers in a 2-ring
-	{Pkgs: [][]int{{101}, {100}}, Helpers: nil},                                   // two BUILD files loading each other
-	{Pkgs: [][]int{{101}, {0}}, Helpers: [][]int{{1}, {100}}},                     // 4-ring through two packages: p0 -> p1 -> h0 -> h1 -> p0
-	{Pkgs: [][]int{{101}, {0}}, Helpers: [][]int{{1}, {2}, {100}}},                // 5-ring
-	{Pkgs: [][]int{{0}, {1}, {2}}, Helpers: [][]int{{1}, {2}, {0}}},               // three packages entering a 3-ring
-	{Pkgs: [][]int{{0}, {1}}, Helpers: [][]int{{1}, {2}, {}}},                     // acyclic: shared chain entered at two points
-	{Pkgs: [][]int{{0, 1}, {1, 0}}, Helpers: [][]int{{2}, {2}, {}}},               // acyclic: diamond from two packages
-	{Pkgs: [][]int{{101, 0}, {0}}, Helpers: [][]int{{}}},                          // acyclic: BUILD loads BUILD, shared helper
+	{Pkgs: [][]int{{0}, {1}}, Helpers: [][]int{{1}, {0}}},           // two packages, helpers in a 2-ring
+	{Pkgs: [][]int{{101}, {100}}, Helpers: nil},                     // two BUILD files loading each other
+	{Pkgs: [][]int{{101}, {0}}, Helpers: [][]int{{1}, {100}}},       // 4-ring through two packages: p0 -> p1 -> h0 -> h1 -> p0
+	{Pkgs: [][]int{{101}, {0}}, Helpers: [][]int{{1}, {2}, {100}}},  // 5-ring
+	{Pkgs: [][]int{{0}, {1}, {2}}, Helpers: [][]int{{1}, {2}, {0}}}, // three packages entering a 3-ring
+	{Pkgs: [][]int{{0}, {1}}, Helpers: [][]int{{1}, {2}, {}}},       // acyclic: shared chain entered at two points
+	{Pkgs: [][]int{{0, 1}, {1, 0}}, Helpers: [][]int{{2}, {2}, {}}}, // acyclic: diamond from two packages
+	{Pkgs: [][]int{{101, 0}, {0}}, Helpers: [][]int{{}}},            // acyclic: BUILD loads BUILD, shared helper
 }
 
 // TestC06Exhaustive runs every catalogue graph under EVERY run-until-block schedule with one
